@@ -412,6 +412,7 @@ def run(ctx):
                        'Part A objects hold integers; derivative values are integer-valued floats']
     if ctx.ensure_library():
         ctx.prove(['theories/Props/C18.v'])
+        ctx.effects_obligations()      # regenerated from the current source: see coq/obl/Eff_C18.v
     # ---- Part A
     hists = gen_model_histories(ctx.rng, ctx.tier)
     terms, keep = [], []
